@@ -828,7 +828,7 @@ LEVEL_TEXT = ('Partial proof. Coq proves, for EVERY store, every NaN-free input,
               'before any slot runs with the store untouched; (2) both default bridges are correct for all three '
               'dispatch kinds; (3) space.lincomb writes a*x1+b*x2 in both size regimes and all alias patterns; '
               '(4) by structural induction over operator trees of ANY depth built from the nine expression classes '
-              '(bodies regenerated from operator.py; fresh or user-supplied temporaries), five translated leaf classes, ten translated proximal operators and primitive leaves of all three '
+              '(bodies regenerated from operator.py; fresh or user-supplied temporaries), five translated leaf classes, twelve translated proximal operators and primitive leaves of all three '
               'dispatch kinds incl. alias-returning ones: in-place = out-of-place = the denoted function, result is y / '
               'an element of the range, no other pre-existing object (in particular x) is modified; same for '
               'functional-valued trees; ProductSpaceOperator (any entry list; loop invariants) and ComponentProjectionAdjoint. Refuted (and recorded): out.set_zero() on < 100 entries keeps NaN, hence '
